@@ -5,7 +5,7 @@
      (scconc nLIM (ev ...))          ev = (stake nI) | (srel nI) | (sstep nI) | (supd nL)
      (sqseq  nMAX nINTERVAL (op ..)) op = stake | stick | (supd nMAX nINTERVAL)
      (sqconc nMAX nINTERVAL (ev ..)) ev = (stake nI) | (stick nI) | (sstep nI) | (supd nMAX nINTERVAL)
-     (slive  nLIM (ev ...))          ev = (sacc bEARLIER bLATER) | (sbatch nK) | sclose | (supd nL) | sdup
+     (slive  nLIM (ev ...))          ev = (sacc bEARLIER bLATER) | (sbatch nK) | sclose | (supd nL) | sdup   (L = 0: limiter off)
      (sdial  nLIM (ev ...))          ev = (sdial bEARLIER bLATER) | sclose | sredial
      (swall  nMAX nINTERVAL ((nMAX nINTERVAL) ...))   Update sequence of a wall-clock run
      (sqlive nTOTAL nHANDLER nINTERVAL (ev ...))  ev = (scall sM) | (spush sM) | stick   (M = a | b)
@@ -207,6 +207,121 @@ Fixpoint run_live (sd : side) (s : lstate) (next : nat) (evs : list val) : optio
            end
   end.
 
+(* ---- live histories on the accept side, with the limiter switched off and on ----
+   order = the admitted sessions, oldest first: (Some instance | None, index) *)
+Fixpoint m_steps (fuel : nat) (M : mstate) (g i : nat) : mstate :=
+  match fuel with
+  | O => M
+  | S f => match mstep false M (MIn g (EStep i)) with Some M' => m_steps f M' g i | None => M end
+  end.
+
+Definition sess_at (M : mstate) (g i : nat) : sess := getn sess0 i (l_ss (getn ldef g (m_gens M))).
+
+Definition m_connect (M : mstate) (g i : nat) (e l : bool) : option mstate :=
+  match mstep false M (MIn g (EConnect i SAccept e)) with
+  | None => None
+  | Some M1 =>
+      let M2 := m_steps 12 M1 g i in
+      if is_taken_b (sess_at M2 g i) then
+        match mstep false M2 (MIn g (ELater i l)) with
+        | Some M3 => Some (m_steps 12 M3 g i)
+        | None => None
+        end
+      else Some M2
+  end.
+
+Definition morder := list (option nat * nat).
+
+(* one connection offered to whatever the plugin's pointer holds now *)
+Definition m_accept (M : mstate) (ord : morder) (e l : bool) : option (mstate * morder) :=
+  match m_cur M with
+  | Some g =>
+      let i := length (l_ss (getn ldef g (m_gens M))) in
+      match m_connect M g i e l with
+      | Some M' => Some (M', if is_live_b (sess_at M' g i) then ord ++ [(Some g, i)] else ord)
+      | None => None
+      end
+  | None =>
+      if e && l then
+        let i := length (m_unl M) in
+        match mstep false M (MUnl i true) with
+        | Some M' => Some (M', ord ++ [(None, i)])
+        | None => None
+        end
+      else Some (M, ord)
+  end.
+
+Fixpoint m_accept_many (M : mstate) (ord : morder) (k : nat) : option (mstate * morder) :=
+  match k with
+  | O => Some (M, ord)
+  | S k' => match m_accept M ord true true with
+            | Some (M', ord') => m_accept_many M' ord' k'
+            | None => None
+            end
+  end.
+
+Definition m_close (M : mstate) (ord : morder) : option (mstate * morder) :=
+  match ord with
+  | [] => Some (M, ord)
+  | (Some g, i) :: r =>
+      match mstep false M (MIn g (EClose i)) with
+      | Some M' => Some (m_steps 12 M' g i, r)
+      | None => None
+      end
+  | (None, i) :: r =>
+      match mstep false M (MUnl i false) with
+      | Some M' => Some (M', r)
+      | None => None
+      end
+  end.
+
+Definition m_update (M : mstate) (n : Z) : option mstate :=
+  if n <=? 0 then mstep false M MOff
+  else match m_cur M with
+       | None => mstep false M (MOn n)
+       | Some g => mstep false M (MIn g (EUpdate n))
+       end.
+
+Definition mobs (M : mstate) : val :=
+  let a := VN (Z.to_N (madmitted M)) in
+  match m_cur M with
+  | Some g => let c := l_c (getn ldef g (m_gens M)) in VL [a; a; VZ (c_now c); VZ (c_tmp c)]
+  | None => VL [a; a; vsym "none"; vsym "none"]
+  end.
+
+Fixpoint run_mlive (M : mstate) (ord : morder) (evs : list val) : option (list val) :=
+  match evs with
+  | [] => Some []
+  | v :: r =>
+      let k := fun (o : option (mstate * morder)) =>
+        match o with
+        | Some (M', ord') => option_map (cons (mobs M')) (run_mlive M' ord' r)
+        | None => None
+        end in
+      if sym_eqb v "close" then k (m_close M ord)
+      else if sym_eqb v "dup" then k (Some (M, ord))   (* the repaired hook finds no holder *)
+      else match v with
+           | VL [h; e; l] =>
+               if sym_eqb h "acc" then
+                 match vbool_of e, vbool_of l with
+                 | Some eb, Some lb => k (m_accept M ord eb lb)
+                 | _, _ => None
+                 end
+               else None
+           | VL [h; VN n] =>
+               if sym_eqb h "batch" then k (m_accept_many M ord (N.to_nat n))
+               else if sym_eqb h "upd" then k (option_map (fun M' => (M', ord)) (m_update M (Z.of_N n)))
+               else None
+           | _ => None
+           end
+  end.
+
+Definition run_mlive0 (lim : Z) (evs : list val) : option (list val) :=
+  match m_update minit lim with
+  | Some M => run_mlive M [] evs
+  | None => None
+  end.
+
 (* ---- live rate limit: total bucket, one handler bucket (method a), none for b ---- *)
 Definition outcome_val (o : outcome) : val :=
   match o with
@@ -271,7 +386,7 @@ Definition run (inp : val) : option val :=
       let l := Z.of_N lim in
       if sym_eqb k "cseq" then option_map VL (run_cseq (c_new l) evs)
       else if sym_eqb k "cconc" then option_map VL (run_cconc (mkR (c_new l) []) evs)
-      else if sym_eqb k "live" then option_map VL (run_live SAccept (linit l) 0 evs)
+      else if sym_eqb k "live" then option_map VL (run_mlive0 l evs)
       else if sym_eqb k "dial" then option_map VL (run_live SDial (linit l) 0 evs)
       else None
   | VL [k; VN m; VN iv; VL evs] =>
